@@ -308,6 +308,8 @@ class RecSubscriber:
 
     def on_error(self, exception):
         self.rec.eff('cb', self.oid, ('error',))
+        if getattr(self.rec, 'sub_error_raises', False):
+            raise RuntimeError('subscriber.on_error failed')
 
 
 # ---------------------------------------------------------------------------------------------
